@@ -80,6 +80,7 @@ type namer struct {
 
 var clientParamMethods = setOf("o", "string", "context", "httpclient", "writetorequest", "bindrequest", "httprequest", "withtimeout", "settimeout", "withcontext", "setcontext", "withhttpclient", "sethttpclient", "withdefaults", "setdefaults")
 var modelMethods = setOf("validate", "contextvalidate", "marshalbinary", "unmarshalbinary", "marshaljson", "unmarshaljson")
+var templateImports = setOf("http", "params", "runtime", "swag", "errors", "strfmt", "middleware", "security", "spec", "loads", "validate", "context", "io", "json", "fmt", "strings", "os", "url", "net", "flags", "server", "tls", "log", "time", "sync", "atomic", "signal", "strconv", "golangswaggerpaths", "yamlpc", "interpose", "cr", "cobra", "viper", "client", "models", "httptransport", "operations", "restapi", "path", "homedir", "bytes", "reader", "bufio", "multipart", "mime")
 var badTags = setOf("models", "bool", "error", "string", "nil", "len", "new", "true", "false", "append", "make", "init", "main", "o", "restapi", "cli", "io", "os", "strconv", "context")
 var cliImports = setOf("json", "fmt", "swag", "cobra", "viper", "strfmt", "errors", "runtime", "client", "models", "httptransport", "os", "log", "path", "homedir")
 var rePlainIdent = regexp.MustCompile(`^[A-Za-z_][A-Za-z0-9_.\-]*$`)
@@ -174,7 +175,7 @@ func knownBad(kind, s string) string {
 		if !isASCII(s) {
 			return "non-ascii-parameter-name"
 		}
-		if clientParamMethods[k] || predeclared[strings.ToLower(s)] {
+		if clientParamMethods[k] || predeclared[strings.ToLower(s)] || templateImports[k] || goKeywords[s] {
 			return "parameter-named-like-template-identifier"
 		}
 		for _, r := range s {
@@ -196,7 +197,7 @@ func knownBad(kind, s string) string {
 			return "caseless-initial"
 		}
 	case "tag":
-		if !isASCII(s) || badTags[k] {
+		if !isASCII(s) || badTags[k] || templateImports[k] || predeclared[strings.ToLower(s)] {
 			return "tag-not-a-package-name"
 		}
 	case "enum-value", "response-header":
@@ -232,6 +233,9 @@ func (n *namer) draw(t *rapid.T, label, kind, ns string, ok func(string) bool) s
 		k := mangleKey(s)
 		if !hasLetter(s) || k == "" || u[k] || (ok != nil && !ok(s)) {
 			continue
+		}
+		if (kind == "parameter" || kind == "path-parameter" || kind == "header") && k == "body" {
+			continue // would collide with the body parameter (C08's subject)
 		}
 		if !n.unfilter {
 			rule := knownBad(kind, s)
@@ -534,6 +538,10 @@ func sanitize(doc J, feats map[string]bool, flatten string) {
 		rec = func(s J, hops int, viaMap bool) {
 			if hops >= 2 {
 				delete(s, "enum")
+			}
+			if _, isRef := s["$ref"]; isRef && hops >= 3 && viaMap {
+				delete(s, "$ref")
+				s["type"] = "string"
 			}
 			if hops >= 3 && viaMap {
 				// and validations three hops deep index the receiver instead of its map field
